@@ -477,3 +477,115 @@ fn format_fragment(
     printer = printer.with_capacity(capacity);
     Some(printer.print(&ir))
 }
+
+/// Verification hooks: public wrappers of the private range helpers (add-only, cfg-gated).
+#[cfg(emmyluals_emmylua_analyzer_rust_verif)]
+pub mod verif_access {
+    use super::*;
+
+    pub fn clamp_range(range: TextRange, upper_bound: TextSize) -> TextRange {
+        super::clamp_range(range, upper_bound)
+    }
+    pub fn contains_range(container: TextRange, inner: TextRange) -> bool {
+        super::contains_range(container, inner)
+    }
+    pub fn intersects_range(left: TextRange, right: TextRange) -> bool {
+        super::intersects_range(left, right)
+    }
+    pub fn expand_to_full_lines(text: &str, range: TextRange) -> TextRange {
+        super::expand_to_full_lines(text, range)
+    }
+    pub fn line_start_offset(text: &str, offset: usize) -> usize {
+        super::line_start_offset(text, offset)
+    }
+    pub fn line_end_offset(text: &str, offset: usize) -> usize {
+        super::line_end_offset(text, offset)
+    }
+    pub fn line_indent_prefix(text: &str, line_start: TextSize) -> String {
+        super::line_indent_prefix(text, line_start)
+    }
+    pub fn strip_base_indent(text: &str, indent_prefix: &str) -> String {
+        super::strip_base_indent(text, indent_prefix)
+    }
+    pub fn apply_base_indent(text: &str, indent_prefix: &str) -> String {
+        super::apply_base_indent(text, indent_prefix)
+    }
+    pub fn split_line_ending(line: &str) -> (&str, &str) {
+        super::split_line_ending(line)
+    }
+
+    /// One node of the layout plan: its text range, whether it is a syntax node of kind `Block`,
+    /// and its children (comments have none).  `range` is `None` when the id no longer resolves.
+    #[derive(Debug, Clone)]
+    pub struct LayoutDump {
+        pub range: Option<TextRange>,
+        pub is_syntax: bool,
+        pub is_block: bool,
+        pub children: Vec<LayoutDump>,
+    }
+
+    fn dump_nodes(root: &LuaSyntaxNode, nodes: &[LayoutNodePlan]) -> Vec<LayoutDump> {
+        nodes
+            .iter()
+            .map(|node| match node {
+                LayoutNodePlan::Comment(_) => LayoutDump {
+                    range: layout_node_text_range(root, node),
+                    is_syntax: false,
+                    is_block: false,
+                    children: Vec::new(),
+                },
+                LayoutNodePlan::Syntax(plan) => LayoutDump {
+                    range: layout_node_text_range(root, node),
+                    is_syntax: true,
+                    is_block: plan.kind == LuaSyntaxKind::Block,
+                    children: dump_nodes(root, &plan.children),
+                },
+            })
+            .collect()
+    }
+
+    /// What `select_format_range` sees and computes for one document and selection.
+    #[derive(Debug, Clone)]
+    pub struct SelectTrace {
+        pub upper_bound: TextSize,
+        pub clamped: TextRange,
+        pub root_nodes: Vec<LayoutDump>,
+        pub deepest_block_slice: Option<TextRange>,
+        pub overlapping_root_slice: Option<TextRange>,
+        pub explicit_target: Option<TextRange>,
+        pub selected: Option<TextRange>,
+    }
+
+    /// `None` when the text is empty or has syntax errors (no range formatting happens then).
+    pub fn select_trace(
+        source: &SourceText,
+        selection: TextRange,
+        config: &LuaFormatConfig,
+    ) -> Option<SelectTrace> {
+        if source.text.is_empty() {
+            return None;
+        }
+        let tree = LuaParser::parse(source.text, ParserConfig::with_level(source.level));
+        if tree.has_syntax_errors() {
+            return None;
+        }
+        let chunk = tree.get_chunk_node();
+        let upper_bound = chunk.syntax().text_range().end();
+        let clamped = super::clamp_range(selection, upper_bound);
+        let ctx = FormatContext::new(config);
+        let mut plan = FormatPlan::from_config(config);
+        layout::analyze_layout(&ctx, &chunk, &mut plan);
+        let root = chunk.syntax();
+        let nodes = plan.layout.root_nodes.as_slice();
+        Some(SelectTrace {
+            upper_bound,
+            clamped,
+            root_nodes: dump_nodes(root, nodes),
+            deepest_block_slice: find_deepest_block_slice(root, nodes, clamped),
+            overlapping_root_slice: find_overlapping_slice(root, nodes, clamped),
+            explicit_target: select_explicit_format_target(&chunk, clamped)
+                .map(|target| target.replace_range),
+            selected: select_format_range(source.text, &chunk, clamped, config),
+        })
+    }
+}
